@@ -1099,7 +1099,7 @@ fn main() {
 	let only = arg("scenario");
 	let bound = arg_u64("bound", 1000) as u32;
 	let max_runs = arg_u64("max", 1_000_000) as usize;
-	let watchdog = Duration::from_secs(arg_u64("watchdog", 90));
+	let watchdog = Duration::from_secs(arg_u64("watchdog", 300));
 	let prefix: Vec<usize> = arg("prefix")
 		.map(|p| p.split(',').filter(|x| !x.is_empty()).map(|x| x.parse().unwrap()).collect())
 		.unwrap_or_default();
